@@ -819,6 +819,14 @@ impl Xot {
                         content,
                         span: _,
                     } => {
+                        // the target xml is reserved, in any letter case
+                        // https://www.w3.org/TR/xml/#sec-pi
+                        if target.as_str().eq_ignore_ascii_case("xml") {
+                            return Err(ParseError::InvalidTarget(
+                                target.to_string(),
+                                target.into(),
+                            ));
+                        }
                         let node_id = builder.processing_instruction(
                             target.as_str(),
                             content.map(|s| s.as_str()),
